@@ -1003,6 +1003,109 @@ impl Driver for TrackOps {
     }
 }
 
+// ---------------------------------------------------------------------------------------------
+// Part 3: outlines that are not a whole number of a layer's periods
+// ---------------------------------------------------------------------------------------------
+
+/// Empty cells whose outline exceeds a whole number of period boxes by 1..2 primitive pitches in x and / or
+/// y. The statement allows `Err` (what the exporter answers today); an `Ok` must still draw every track that
+/// lies inside the outline - also those of the trailing partial period.
+pub struct Partial;
+#[derive(Clone, Debug)]
+pub struct PartialCase {
+    pub stack: usize,
+    pub metals: usize,
+    pub boxes: (i64, i64),
+    pub extra: (i64, i64),
+}
+impl CaseDriver for Partial {
+    type Case = PartialCase;
+    fn id(&self) -> &'static str {
+        "C08"
+    }
+    fn describe(&self, _t: Tier) -> Describe {
+        Describe {
+            rule: format!("{} stacks x cell metals 1..=stack height x 1-2 period boxes per direction x 0..=2 extra primitive pitches in x and y (not both zero), empty cells (no cuts / assignments / instances): outlines that are not a whole number of some layer's periods. State = (stack, metals, outline); all non-trivial.", family().len()),
+            assumptions: vec!["Err is allowed; an Ok result must contain, for every layer of the cell, a full-length rectangle at the position and width of every rail / signal entry of the trailing partial period that lies entirely inside the outline".into()],
+            excluded: vec![],
+            technique: "exhaustive enumeration of partial-period outlines on the real RawExporter::convert vs the periodic track pattern".into(),
+        }
+    }
+    fn bound(&self, _t: Tier) -> usize {
+        0
+    }
+    fn gen(&self, _t: Tier, c: &mut Chooser) -> PartialCase {
+        let fam = family();
+        let si = c.free(fam.len(), "stack");
+        let metals = 1 + c.free(fam[si].layers.len(), "metals");
+        let boxes = [(1, 1), (2, 1), (1, 2)][c.free(3, "boxes")];
+        let e = 1 + c.free(8, "extra");
+        PartialCase { stack: si, metals, boxes, extra: ((e % 3) as i64, (e / 3) as i64) }
+    }
+    fn check(&self, case: &PartialCase, key: &str, cx: &mut Cx) {
+        let sd = &family()[case.stack];
+        cx.state(hash_debug(case), true);
+        let pb = sd.period_box();
+        let size_db = (case.boxes.0 * pb.0 + case.extra.0 * sd.prim.0, case.boxes.1 * pb.1 + case.extra.1 * sd.prim.1);
+        let size = (size_db.0 / sd.prim.0, size_db.1 / sd.prim.1);
+        let cd = CaseD { stack: case.stack, cell: CellIn { metals: case.metals, size, cuts: vec![], assigns: vec![], insts: vec![] }, children: vec![] };
+        let whole = (0..case.metals).all(|l| {
+            let ly = &sd.layers[l];
+            (if ly.horiz { size_db.1 } else { size_db.0 }) % ly.pitch() == 0
+        });
+        cx.tag(if whole { "partial:whole-periods-after-all" } else { "partial:fractional-period" });
+        match guard(|| run_convert(sd, &cd)) {
+            Err(p) => cx.fail(key, "partial-panic", None, || format!("RawExporter::convert panicked: {}", p.short()), || Value::Null),
+            Ok(Err(e)) => cx.fail(key, "setup-failed", None, || e.clone(), || Value::Null),
+            Ok(Ok(Err(_))) => cx.outcome("partial-err"),
+            Ok(Ok(Ok(cells))) => {
+                let Some((_, elems, _)) = cells.iter().find(|(n, _, _)| n == "top") else {
+                    cx.fail(key, "cell-missing", None, || "cell top missing".into(), || Value::Null);
+                    return;
+                };
+                for l in 0..case.metals {
+                    let ly = &sd.layers[l];
+                    let (breadth, length) = if ly.horiz { (size_db.1, size_db.0) } else { (size_db.0, size_db.1) };
+                    let np = (breadth / ly.pitch()) as usize;
+                    // every period that starts inside the outline, the trailing partial one included
+                    for p in 0..=np {
+                        for (kind, start, w) in ly.period(p, true) {
+                            if kind == Kind::Gap || start < 0 || start + w > breadth {
+                                continue;
+                            }
+                            let found = elems.iter().any(|e| {
+                                e.layer == LayerId::Metal(l) && {
+                                    let n = e.clone().normalised();
+                                    let (c0, c1, a0, a1) = if ly.horiz { (n.y0, n.y1, n.x0, n.x1) } else { (n.x0, n.x1, n.y0, n.y1) };
+                                    c0 == start && c1 == start + w && a0 <= 0 && a1 >= length
+                                }
+                            });
+                            if !found {
+                                cx.outcome("partial-track-missing");
+                                cx.fail(
+                                    key,
+                                    "track-inside-outline-not-drawn",
+                                    None,
+                                    || format!("stack {} metals {} outline {:?} db: layer {l} has a {kind:?} track at {start}..{} (period {p}) inside the outline, but the compiled cell has no rectangle for it", case.stack, case.metals, size_db, start + w),
+                                    || json!({"stack": render_stack(sd), "outline_db": [size_db.0, size_db.1], "layer": l, "period": p, "track": [start, start + w]}),
+                                );
+                                return;
+                            }
+                        }
+                    }
+                }
+                cx.outcome("partial-ok-complete");
+            }
+        }
+    }
+    fn render(&self, case: &PartialCase) -> Value {
+        json!({"stack": case.stack, "metals": case.metals, "period_boxes": [case.boxes.0, case.boxes.1], "extra_primitive_pitches": [case.extra.0, case.extra.1]})
+    }
+    fn guards(&self, _t: Tier, stats: &Stats, _d: u64) -> Result<(), String> {
+        require_tags(stats, &["partial:fractional-period"])
+    }
+}
+
 pub fn driver() -> Box<dyn Driver> {
-    Box::new(Multi { id: "C08", parts: vec![("convert", Box::new(super::balance::Balanced(ByCase(Convert)))), ("trackops", Box::new(TrackOps))] })
+    Box::new(Multi { id: "C08", parts: vec![("convert", Box::new(super::balance::Balanced(ByCase(Convert)))), ("trackops", Box::new(TrackOps)), ("partial", Box::new(ByCase(Partial)))] })
 }
